@@ -17,11 +17,17 @@ Leg R  TLC's explored graph (canonical revalidation) is exported as edges; an ed
        against PoolTrace.tla -- every reply and every reported pool must be explained by the spec.
 Leg T  seeded random histories on much larger trees (forks, reorgs, stale bases, conflicts,
        parent/child chains, lookups of every id kind), same audits, same validation."""
-import os, re, json, random, time, itertools, concurrent.futures as cf
+import os, re, json, random, time, itertools, threading, concurrent.futures as cf
 import vlib
 from vlib import log
 
 PROP = "C14"
+
+# the machine is shared: every JVM gets a bounded heap (the default would be a quarter of the RAM
+# per process) and at most TLC_SLOTS trace validations run at a time
+JVM_M = {"JAVA_TOOL_OPTIONS": "-Xss64m -Xmx4g"}
+JVM_T = {"JAVA_TOOL_OPTIONS": "-Xss64m -Xmx3g -Dtlc2.tool.queue.IStateQueue=StateDeque"}
+TLC_SLOTS = threading.BoundedSemaphore(6)
 
 # ------------------------------------------------------------------ deviations <- known findings
 
@@ -197,10 +203,10 @@ NODEV = {"DevPartialAdd": False, "DevSharedIndex": False, "DevEphDrop": False, "
 def leg_m(wd, cfg, scfile, what, devs=None, timeout=900, workers=8, tag=None, emit=False):
     """exhaustive TLC run with the ideal rules (no deviation): the properties must hold.  emit=True
     also exports the explored graph as edges (for cfgs whose graph IS the stimulus graph of Leg R)"""
-    cfgp = cfg_with_devs(wd, cfg, devs or NODEV, tag or "")
+    cfgp = cfg_with_devs(wd, cfg, devs or NODEV, ("_" + tag) if tag else "")
     if emit:
         open(cfgp, "a").write("ACTION_CONSTRAINT EmitEdge\n")
-    r = vlib.run_tlc(wd, "MCPool", cfgp, workers=workers, timeout=timeout, env={"POOLSC": scfile}, tag=(tag or cfg.replace(".cfg", "")))
+    r = vlib.run_tlc(wd, "MCPool", cfgp, workers=workers, timeout=timeout, env=dict(JVM_M, POOLSC=scfile), tag=(tag or cfg.replace(".cfg", "")))
     vlib.tlc_must_pass(r, what)
     log("  M: %s: %d distinct states, %d transitions, depth %d, %.1fs" % (what, r.distinct, r.generated, r.depth, r.wall))
     return r
@@ -211,7 +217,7 @@ def probe(wd, cfg, scfile, dev, expect, tag):
     counterexample (otherwise the model no longer represents the finding)"""
     devs = dict(NODEV); devs[dev] = True
     cfgp = cfg_with_devs(wd, cfg, devs, "_" + tag)
-    r = vlib.run_tlc(wd, "MCPool", cfgp, workers=4, timeout=600, env={"POOLSC": scfile}, tag=tag)
+    r = vlib.run_tlc(wd, "MCPool", cfgp, workers=4, timeout=600, env=dict(JVM_M, POOLSC=scfile), tag=tag)
     hit = r.exit != 0 and r.violated is not None and any(e in r.violated for e in expect)
     log("  M: probe %s on %s: %s (violated: %s, %.1fs)" % (dev, cfg, "design-level counterexample found" if hit else "NO counterexample", r.violated, r.wall))
     return hit
@@ -223,7 +229,7 @@ def stimulus_paths(wd, cfg, scfile, rng, tag, max_paths=None, max_len=40, tlc=No
     r = tlc
     if r is None:
         cfgp = cfg_with_devs(wd, cfg, NODEV, "_" + tag)
-        r = vlib.run_tlc(wd, "MCPool", cfgp, workers=4, timeout=1200, env={"POOLSC": scfile}, tag=tag)
+        r = vlib.run_tlc(wd, "MCPool", cfgp, workers=4, timeout=1200, env=dict(JVM_M, POOLSC=scfile), tag=tag)
         vlib.tlc_must_pass(r, cfg)
     by_sc = {}
     for raw in r.edges.raw:
@@ -280,12 +286,19 @@ def validate_shard(wd, prop, trace, scens, devs, verdict, tag, accept=None):
     cfgp = cfg_with_devs(wd, "PoolTrace.cfg", devs, "_" + tag)
     rejected = 0; states = 0
     for it in range(10):
-        ok, r, consumed = vlib.validate_trace(wd, "PoolTrace", cfgp, trace, timeout=1800, tag="%s_%d" % (tag, it), extra_env={"POOLSC": scens})
+        for attempt in range(3):
+            with TLC_SLOTS:
+                ok, r, consumed = vlib.validate_trace(wd, "PoolTrace", cfgp, trace, timeout=1800, tag="%s_%d" % (tag, it), extra_env=dict(JVM_T, POOLSC=scens))
+            if ok or consumed is not None:
+                break
+            # no verdict at all: the JVM died (e.g. killed under memory pressure on the shared machine)
+            log("  (TLC gave no verdict on %s, exit %s: retrying)" % (os.path.basename(trace), r.exit))
+            time.sleep(5 + 10 * attempt)
         states += r.distinct
         if ok:
             break
         if consumed is None:
-            raise vlib.Infra("pool trace validation broke: %s\n%s" % (r.error, r.out[-3000:]))
+            raise vlib.Infra("pool trace validation broke (exit %s): %s\n%s" % (r.exit, r.error, r.out[-3000:]))
         traces = list(split_traces(trace))
         bad = None
         for start, lines in traces:
